@@ -972,7 +972,8 @@ def plan_c19(run, prop, tier):
         base_norm = [(_norm_event(e), _norm_event(e, False)) for (_, e) in evs if _norm_event(e) is not None]
         if len(base_norm) != len(calls):
             raise ToolError("C19: calls and normalised events of the base trace do not line up")
-        configs = [(b["n"], b["cap"], "same configuration, new process")] * 2 + [(n, max(c, b["cap"] + 1), "other configuration") for (n, c) in (big_others if b["cap"] >= 100 else others.get(b["n"], []))]
+        configs = [(b["n"], b["cap"], "same configuration, new process")] * 2 + [(n, max(c, b["cap"] + 1), "other configuration") for (n, c) in (big_others if b["cap"] >= 100 else others.get(b["n"], []))
+                                                                                                  if n >= b["n"]]   # the history must fit the other configuration as well
         for (n, cap, kind) in configs:
             def _cfg(c):
                 c = dict(c)
